@@ -9,18 +9,18 @@ CLAIMS = {
  "C01": ("TooDee.tla/TooDeeMC.tla: TLC explores every transition of the Layer A history machine within small shape bounds, plus random walks; every explored behaviour is replayed step by step against the real crate with the full projection (dimensions, data, iterator lengths, every coordinate) compared", "6/C01"),
  "C02": ("Access.tla/AccessMC.tla: TLC enumerates every accessor x coordinate (incl. huge / wrap-adversarial) x receiver (owned, slice-built, every window, nested); each is executed on the real crate in debug and overflow-unchecked builds and compared by cell id and address", "6/C02"),
  "C03": ("Access.tla/AccessMC.tla: TLC enumerates every window request (valid, invalid, zero-extent anywhere, huge) on every receiver up to nesting depth 2-3; the real window is compared cell by cell, writes through view_mut compared on the whole root", "6/C03"),
- "C04": ("Access.tla/AccessMC.tla: every mutating trait operation x every argument through every mutable window; TLC checks the frame invariant on the specification and the whole real root is compared with Embed(root, window, Op(window))", "6/C04"),
- "C05": ("history cases of TooDee.tla replayed with a ledger-carrying element type and a zero-sized type; the specification's conservation law (live = array + handle + caller; nothing twice; nothing dead reachable; nothing live at the end) is evaluated after every step", "6/C05"),
+ "C04": ("Access.tla/AccessMC.tla: every mutating trait operation x every argument through every mutable window; TLC checks the frame invariant on the specification and the whole real root is compared with Embed(root, window, Op(window)); plus every call sequence of the mutable iterators through every window (SeqIter.tla) with write-through, and long / 2^18-entry sort lines through narrow windows judged by SortTrace.tla (DESIGN section 17 lists every action and axis)", "6/C04"),
+ "C05": ("history cases of TooDee.tla (ordinary, fault and leak transitions) replayed with ledger-carrying element types of 8, 16 and 40 bytes and a zero-sized type, and random histories validated by TLC against TooDeeTrace.tla; the specification's conservation law (live = array + handle + caller; nothing twice; nothing dead reachable; nothing live at the end of a fault-free history) is evaluated after every step", "6/C05"),
  "C06": ("every insert/push transition of the history machine from every reachable shape (index 0..dim+1 + huge, supplied length 0..dim+1) replayed in both build profiles, three element types, three capacity modes, with a red-zone allocator", "6/C06"),
  "C07": ("every remove/pop transition and every drain step from every (shape, index, taken-front, taken-back) state of the history machine replayed against the real crate", "6/C07"),
  "C08": ("SeqIter.tla/IterMC.tla: rows()/rows_mut() as the ideal double-ended exact-size sequence: TLC explores every (front,back) state x every call x every argument (edges), every call sequence to a depth bound, and random walks, over every receiver; each behaviour is executed on one live real iterator, results compared, the remainder drained and compared, yielded &mut rows written through and the whole root compared", "6/C08-C10"),
  "C09": ("SeqIter.tla/IterMC.tla: col(c)/col_mut(c) for every column as the ideal indexable sequence, same exploration as C08 incl. [i] on the remaining sequence with huge indices in overflow-unchecked builds", "6/C08-C10"),
  "C10": ("SeqIter.tla/IterMC.tla: cells()/cells_mut() and the IntoIterator forms on references as the ideal row-major cell sequence, same exploration as C08 (nth arguments within-row, row-crossing, exact multiples, beyond the end, huge)", "6/C08-C10"),
- "C18": ("Serde.tla/SerdeMC.tla: TLC checks RoundTrip on the document model; every shape is serialised from the real crate with five element types through every serialiser x deserialiser pair (string, bytes, reader, value tree), and every window from view / mutable view", "6/C18"),
- "C19": ("Serde.tla/SerdeMC.tla: TLC enumerates the document grammar (every subset/order/duplication of fields, dimension tokens incl. 2^32..2^64, negative, fractional, string, null, data lengths around the product, ill-typed and non-array data), checks the visitor design (Layer B) refines the acceptance rule (Layer A), and every document is fed to the real deserialiser through all four transports, plain and with escaped keys", "6/C19"),
+ "C18": ("Serde.tla/SerdeMC.tla: TLC checks RoundTrip on the document model; every shape is serialised from the real crate with nine element types (u32, (), i64, i128, u128, String, Option, Vec, BTreeMap) through every serialiser x deserialiser pair (string, bytes, reader, value tree, in place), and every window from view / mutable view", "6/C18"),
+ "C19": ("Serde.tla/SerdeMC.tla: TLC enumerates the document grammar (every subset/order/duplication of fields, dimension tokens incl. 2^32..2^64, negative, fractional, string, null, data lengths around the product, ill-typed and non-array data), checks the visitor design (Layer B) refines the acceptance rule (Layer A), and every document (incl. every positional top-level sequence) is fed to the real deserialiser through from_str / from_slice / from_reader / from_value, plain and with escaped keys, deserialize_in_place into destinations of every small cell count, a length-prefixed format with honest and dishonest announced lengths, as a #[serde(flatten)] part of a record, and as an array of () cells", "6/C19"),
  "C20": ("Ctor.tla/CtorMC.tla: every construction request (6 constructors x dimensions incl. huge and wrap-adversarial x buffer lengths), ==/Hash/clone over all pairs of small arrays, and the conversion transitions of the history machine, executed on the real crate with Copy, owning and zero-sized elements", "6/C20"),
  "C11": ("TooDee.tla fault transitions: TLC enumerates every (operation, shape, index, fault point k / lying length) in which caller-supplied code panics; the real crate is driven through each with the fault injected and caught, then used further; TLC validates the recorded trace against TooDeeTrace.tla, judging the post-fault state by the relation PostFaultOK and everything after it by the history machine", "6/C11"),
- "C12": ("TooDee.tla leak transitions: every drain / by-value iterator leaked (mem::forget) at every consumption stage and every destructor-less borrow leaked; the recorded trace of the real crate (observation + further use + drop) is validated by TLC against TooDeeTrace.tla (PostFaultOK + no double drop then or later)", "6/C12"),
+ "C12": ("TooDee.tla leak transitions: every drain / by-value iterator leaked (mem::forget) at every consumption stage and every destructor-less borrow leaked; the recorded trace of the real crate (observation + further use + drop) is validated by TLC against TooDeeTrace.tla (PostFaultOK + no duplicated element + no double drop then or later); environment overlay: the k-th allocation request of the drain-creating call is refused", "6/C12"),
  "C13": ("Access.tla prim group: swap/swap_rows/swap_cols/row_pair_mut/fill with every index pair incl. equal, reversed, out-of-range and huge, on TooDee, TooDeeViewMut at every window and a third-party implementor using only trait defaults", "6/C13"),
  "C14": ("Access.tla copy group: the four copy_from/clone_from operations with sources around the destination size (owned/view/strided) and copy_within with every source rectangle x destination corner, on owned arrays and every window", "6/C14"),
  "C15": ("Access.tla move group: translate_with_wrap with every mid and both flips on every shape up to 6x6 (quick) / 9x9 (thorough) and through every window of small parents; TLC checks bijectivity on the specification, the real root is compared", "6/C15"),
